@@ -889,3 +889,30 @@ Example c12_nonvacuous_instr_stats :
   let s := pmrun src_program two_fill (repeat 0 12) in
   stats (psh s) 0 <> None /\ value (psh s) 0 = None /\ calls (psh s) = [0].
 Proof. exact pm_stats_example. Qed.
+
+(* the thread walks of the processor on a MULTI-THREADED executor: under EVERY instruction-level interleaving of the
+   per-thread futures (one instruction of the regenerated program of one thread at a time, any order) each module is
+   located at most once, every answer is the module's single one, processed <= requested <= distinct modules, every
+   stats entry classifies the answer of a module located exactly once; when all threads have finished: every module of
+   every frame located exactly once, every thread has all its answers, requested = processed = distinct modules; and under
+   any fair instruction schedule of sufficient length all threads finish *)
+From RM Require Import C12.ProgMeasure C12.ProgFair.
+Theorem c12_processor_threads_instr : forall (d : dump) (base : config) (ms : list task), walk_ok d ->
+  (forall k, psupplier_calls (pmrun src_program (proc_pc src_walker d base) ms) k <= 1) /\
+  (forall t i k o, ptask_result (pmrun src_program (proc_pc src_walker d base) ms) t i = Some (k, o) -> o = outc base k) /\
+  proc (psh (pmrun src_program (proc_pc src_walker d base) ms)) <= req (psh (pmrun src_program (proc_pc src_walker d base) ms)) /\
+  req (psh (pmrun src_program (proc_pc src_walker d base) ms)) <= distinct_keys (cfg (proc_pc src_walker d base)) /\
+  (forall lf o, stats (psh (pmrun src_program (proc_pc src_walker d base) ms)) lf = Some o ->
+     exists k, leaf base k = lf /\ o = outc base k /\ psupplier_calls (pmrun src_program (proc_pc src_walker d base) ms) k = 1) /\
+  (pall_done (proc_pc src_walker d base) (pmrun src_program (proc_pc src_walker d base) ms) = true ->
+     (forall th f k, In th d -> In f th -> f_module f = Some k ->
+        psupplier_calls (pmrun src_program (proc_pc src_walker d base) ms) k = 1) /\
+     (forall t, map fst (results (psh (pmrun src_program (proc_pc src_walker d base) ms)) t) =
+                map snd (nth t (ptasks (proc_pc src_walker d base)) [])) /\
+     req (psh (pmrun src_program (proc_pc src_walker d base) ms)) = distinct_keys (cfg (proc_pc src_walker d base)) /\
+     proc (psh (pmrun src_program (proc_pc src_walker d base) ms)) = distinct_keys (cfg (proc_pc src_walker d base))) /\
+  (forall T, fair (length (ptasks (proc_pc src_walker d base))) T ms ->
+     T * imu (cfg (proc_pc src_walker d base)) (length (ptasks (proc_pc src_walker d base))) (pinit (proc_pc src_walker d base)) <= length ms ->
+     pall_done (proc_pc src_walker d base) (pmrun src_program (proc_pc src_walker d base) ms) = true).
+Proof. exact processor_instr. Qed.
+Print Assumptions c12_processor_threads_instr.
